@@ -5,7 +5,9 @@ import (
 	"fmt"
 	"math"
 	"math/rand"
+	"runtime"
 	"sync"
+	"sync/atomic"
 	"time"
 
 	"verifharness/rec"
@@ -31,6 +33,36 @@ type qExec struct {
 	quit    chan struct{}
 	mu      sync.Mutex
 	sendSeq map[string]int
+	// profile "stress": a spinning cyclic barrier lines the drivers up at the start of every round
+	barN      int64
+	bar       atomic.Int64
+	barBroken atomic.Bool
+	barRound  map[string]int64
+	held      map[string]bool
+}
+
+// sync waits (spinning, so that the drivers leave it within nanoseconds of each other) until every driver reached its
+// k-th barrier; it gives up when somebody does not arrive within two seconds (a driver stuck inside the library)
+func (x *qExec) sync(g string) (ok bool) {
+	x.mu.Lock()
+	x.barRound[g]++
+	k := x.barRound[g]
+	x.mu.Unlock()
+	x.bar.Add(1)
+	t0 := time.Now()
+	for i := 0; x.bar.Load() < k*x.barN; i++ {
+		if x.barBroken.Load() {
+			return false
+		}
+		if i%1024 == 1023 {
+			if time.Since(t0) > 2*time.Second {
+				x.barBroken.Store(true)
+				return false
+			}
+			runtime.Gosched()
+		}
+	}
+	return true
 }
 
 func (x *qExec) do(g string, op QOp) (abort bool) {
@@ -39,6 +71,17 @@ func (x *qExec) do(g string, op QOp) (abort bool) {
 	case "nop":
 		for i := 0; i <= op.N; i++ {
 			ctl.Gate("drv.nop")
+		}
+	case "sync":
+		if !x.sync(g) {
+			// leave in an orderly way: an unused registration is given back
+			x.mu.Lock()
+			h := x.held[g]
+			x.mu.Unlock()
+			if h {
+				x.do(g, QOp{K: "dereg"})
+			}
+			return true
 		}
 	case "send":
 		x.mu.Lock()
@@ -56,6 +99,9 @@ func (x *qExec) do(g string, op QOp) (abort bool) {
 		n := -1
 		p := safeCall(func() { n = x.c.Add(1) })
 		r.Ret(g, "Reg", "r", cls(nil, p), "msg", p, "n", n)
+		x.mu.Lock()
+		x.held[g] = p == ""
+		x.mu.Unlock()
 	case "recv":
 		// receive exactly one value; if the harness tells receivers to leave, deregister instead (the contract)
 		ctl.Gate("drv.call")
@@ -64,6 +110,9 @@ func (x *qExec) do(g string, op QOp) (abort bool) {
 		select {
 		case v := <-x.c.C:
 			r.Add(rec.Ev{"ev": "recv", "g": g, "v": v})
+			x.mu.Lock()
+			x.held[g] = false
+			x.mu.Unlock()
 		case <-x.quit:
 			left = true
 		}
@@ -73,6 +122,9 @@ func (x *qExec) do(g string, op QOp) (abort bool) {
 			return true
 		}
 	case "dereg":
+		x.mu.Lock()
+		x.held[g] = false
+		x.mu.Unlock()
 		ctl.Gate("drv.call")
 		r.Call(g, "Dereg")
 		n := -1
@@ -84,6 +136,30 @@ func (x *qExec) do(g string, op QOp) (abort bool) {
 
 func genCasterScenario(rng *rand.Rand, profile, mode string) any {
 	sc := &QScenario{Profile: profile}
+	if profile == "stress" {
+		// free-running only: rounds in which one Send starts at the same instant as the deregistrations of several
+		// receivers (all registered before the round's barrier), while one or two receivers take the value - windows
+		// between two atomic operations of Add and Send are only reachable with real parallelism
+		rounds := 200 + rng.Intn(200)
+		nflap, nkeep := 4+rng.Intn(4), 1+rng.Intn(2)
+		rep := func(ops ...QOp) (out []QOp) {
+			for i := 0; i < rounds; i++ {
+				out = append(out, ops...)
+			}
+			return
+		}
+		sc.Drivers = append(sc.Drivers, rep(QOp{K: "sync"}, QOp{K: "send"}, QOp{K: "sync"}))
+		sc.Names = append(sc.Names, "P1")
+		for i := 0; i < nflap+nkeep; i++ {
+			last := QOp{K: "dereg"}
+			if i >= nflap {
+				last = QOp{K: "recv"}
+			}
+			sc.Drivers = append(sc.Drivers, rep(QOp{K: "reg"}, QOp{K: "sync"}, last, QOp{K: "sync"}))
+			sc.Names = append(sc.Names, fmt.Sprintf("R%d", i+1))
+		}
+		return sc
+	}
 	nsend := 1 + rng.Intn(2)
 	nrecv := 2 + rng.Intn(3)
 	for i := 0; i < nsend; i++ {
@@ -197,7 +273,8 @@ func misuseCases(r *rec.Rec) {
 
 func runCasterExec(execID int, sci any, e *Env) []rec.Ev {
 	sc := sci.(*QScenario)
-	x := &qExec{e: e, c: bigbuff.NewChanCaster(make(chan int)), quit: make(chan struct{}), sendSeq: map[string]int{}}
+	x := &qExec{e: e, c: bigbuff.NewChanCaster(make(chan int)), quit: make(chan struct{}), sendSeq: map[string]int{},
+		barN: int64(len(sc.Drivers)), barRound: map[string]int64{}, held: map[string]bool{}}
 	e.R.Add(rec.Ev{"ev": "reset", "exec": execID, "mode": e.Mode})
 	for i, ops := range sc.Drivers {
 		ops := ops
